@@ -80,7 +80,7 @@ Proof.
   split; [|split; [vm_compute; discriminate|split; [vm_compute; discriminate|]]].
   2:{ split; [vm_compute; reflexivity|]. split; [vm_compute; reflexivity|].
       split; [intros e z He Hz; destruct (bw_g_positive e He) as [z' [Hz' Hp]]; assert (z = z') by congruence; subst; lia|].
-      split; [intros e He; destruct (bw_g_positive e He) as [z' [Hz' _]]; eauto|].
+      split; [intros e He; destruct (bw_g_positive e He) as [z' [Hz' _]]; exists z'; exact Hz'|].
       split; [vm_compute; reflexivity|]. split; [vm_compute; reflexivity|].
       split; [vm_compute; reflexivity|]. split; [vm_compute; reflexivity|].
       split; eexists; (split; [vm_compute; reflexivity|]); vm_compute; reflexivity. }
